@@ -272,7 +272,7 @@ func runC08(ch chooser.Chooser, st *Stats, mk cacheMaker) *Outcome {
 // anything else (DESIGN.md 5.2).
 func withTwin(ch chooser.Chooser, st *Stats, run func(chooser.Chooser, *Stats, cacheMaker) *Outcome) *Outcome {
 	out := run(ch, st, makeReal)
-	if out.Violation == nil || !TwinAvailable() || !kf1Classes[out.Violation.Class] {
+	if out.Violation == nil || !TwinAvailable() || !kf1Classes[out.Violation.Class] || !KnownActive["KF1"] {
 		return out
 	}
 	rec := append([]chooser.Choice(nil), ch.Record()...)
@@ -301,6 +301,12 @@ func withTwin(ch chooser.Chooser, st *Stats, run func(chooser.Chooser, *Stats, c
 	}
 	return out
 }
+
+// KnownActive lists the findings that known_findings.json currently records
+// with status "known" (set by the worker from VERIF_KNOWN). A failure is put to
+// the differential twin only for a finding listed here; for a finding that has
+// been fixed (or was never listed) every failure is a violation.
+var KnownActive = map[string]bool{}
 
 // kf1Classes are the violation classes a wrong eviction victim can produce.
 // Anything else (a data race, a deadlock, a panic, broken accounting) is never
